@@ -148,7 +148,7 @@ NOTE_NOW = {
  "C01": "exec() of generated code and the engine are validated by the differential run only; the simulator's RHS code templates are regenerated (unit pyrtl_rhs) except on_SwitchValue/_emit_switch; CPython slice.indices/range are read by hand-written definitions compared with the interpreter.",
  "C02": "Targets are linear (known finding F9, exact filter); the simulator's LHS/statement code generator is regenerated (unit pyrtl_lhs) except _emit_switch and the whole-process fold; FSM lowering, Case pattern normalisation and the settle loop are in the model; which domains get a Switch and Module's context-manager bookkeeping are validated only.",
  "C03": "Renamer at the root / merging domains and controls wider than 1 bit are validated only; late-bound ClockSignal/ResetSignal resolution over hierarchies with shadowing domains is modelled (Model/DomScope.v) and proved equal to lexical scoping; two defects repaired in /repo (574e1db, 15105ec).",
- "C04": "Layer B is per design (translation validation against the RTLIL semantics of RtlilSem.v, an assumption: no Yosys offline); NetlistEmitter.emit_assign/extend/emit_match are regenerated (unit ir), emit_stmt/emit_operator are not. Known finding: part-select signed $shift reading.",
+ "C04": "Layer B is per design (translation validation against the RTLIL semantics of RtlilSem.v, an assumption: no Yosys offline); NetlistEmitter.emit_assign/extend/emit_match are regenerated (unit ir), emit_stmt/emit_operator are not. Known finding: part-select signed $shift reading. Open machinery issue (DESIGN.md, paragraph above §9.3): the THOROUGH tier currently reports 3 designs on the unchanged tree because the harness expects a port whose only assignments have zero-width targets to be an output (it is an input since the repair f667bed) — a false alarm of the harness to be corrected; the quick tier is unaffected.",
  "C05": "Aliased targets (F9) are compared model-vs-code only.",
  "C06": "driver_check_iff, the early-conflict and cycle clauses are unbounded; the zero-width-driver defect was repaired in /repo (f667bed). Known finding S2 (deliberate over-approximation of the early DSL check).",
  "C07": "translation_validation: structural well-formedness is decided per emitted document by a checker proved sound and complete w.r.t. its specification; the quantifier over designs is explored. Constants, escapes, attribute/parameter/wire/memory lines and name allocation of back/rtlil.py are regenerated (unit rtlil) and proved to print the concrete syntax of the model's parsed values. Five open findings (port name collision, whitespace in names, field-wire collision, dotted module names, partially used IOPort).",
